@@ -75,6 +75,7 @@ func (s *sender) run(ctx context.Context) error {
 				default:
 				}
 				if err := s.sendFile(h); err != nil {
+					s.conn.SendMsg(&types.Packet{Type: types.PACKET_ERR, Data: []byte(err.Error())})
 					return err
 				}
 			}
